@@ -299,7 +299,7 @@ impl Property for C12 {
         }
         // (b) also for the glob a partition hands back: it is a glob like any other (`a{/b,c}` is
         // shielded by its literal; a postfix `{/b,c}` would be rooted only sometimes)
-        if let Pat::G(g) = &pat {
+        if let Some(g) = pat.glob() {
             if let Ok((_, Some(post))) = guard(|| g.clone().partition()) {
                 st.count("partition_postfix_judged");
                 if let Ok(When::Sometimes) = guard(|| post.has_root()) {
@@ -327,7 +327,7 @@ impl Property for C12 {
             }
         }
         // (c) globs only
-        if let Pat::G(g) = &pat {
+        if let Some(g) = pat.glob() {
             let e = merge_lits(&strip_flags(&case.exprs[0]));
             let (found, nested) = has_dot_component(&case.exprs[0]);
             let _ = e;
@@ -337,7 +337,8 @@ impl Property for C12 {
                 if nested {
                     st.count("dot_component_nested");
                 }
-                let has = match guard(|| g.has_semantic_literals()) {
+                let _ = g;
+                let has = match guard(|| pat.has_semantic_literals().unwrap_or(false)) {
                     Ok(x) => x,
                     Err(_) => {
                         st.panicked += 1;
